@@ -553,6 +553,91 @@ theorem tieBreaking_noTie_dist (main tb : Sem) (a : Args) (d : D)
   simp [tieBreakingLaw, hm, collectDist_noTie d hno]
   rfl
 
+/-- tie-breaking replaces each tie by the tiebreaker's choice and changes nothing else: the places of a tie
+    are filled IN ORDER with the chosen candidates and every other place is kept (`fillTie`).  This is what
+    the code's `result[result.index(tie)] = cand` loop does as long as no answer of a tiebreaker contains
+    the very tie it was asked to break. -/
+theorem tieBreaking_ideal (main tb : Sem) (a : Args)
+    (hclean : ∀ l, main a = .ok (.list l) → choicesClean tb a.votes l = true) :
+    tieBreakingLaw main tb a = tieBreakingIdeal main tb a := by
+  simp only [tieBreakingLaw, tieBreakingIdeal]
+  cases hm : main a with
+  | error e => rfl
+  | ok r =>
+    cases r with
+    | list l =>
+      simp only [ok_bind]
+      have hc := hclean l hm
+      simp only [choicesClean, List.all_eq_true] at hc
+      have : (collectSel l).foldlM (fun res t => do
+              let chosen ← tieChoice tb a.votes t.1 t.2
+              replaceSel res t.1 chosen) l
+           = (collectSel l).foldlM (fun res t => do
+              let chosen ← tieChoice tb a.votes t.1 t.2
+              match fillTie t.1 res chosen with
+              | some r => pure r
+              | Option.none => throw .valueError) l := by
+        apply foldlM_congr_mem
+        intro acc t ht
+        have := hc t ht
+        cases hch : tieChoice tb a.votes t.1 t.2 with
+        | error e => rfl
+        | ok chosen =>
+          rw [hch] at this
+          simp only [ok_bind]
+          rw [replaceSel_eq_fill t.1 chosen acc (by simpa [List.all_eq_true] using this)]
+          cases fillTie t.1 acc chosen <;> rfl
+      rw [this]
+    | dict d => rfl
+    | num _ => rfl
+    | cand _ => rfl
+    | tie _ => rfl
+    | none => rfl
+
+/-- `fillTie` keeps every place that is not the tie … -/
+theorem fillTie_keeps_others (t : List Cand) : ∀ (res chosen out : List V), fillTie t res chosen = some out →
+    out.filter (fun x => notTie t x) |>.length ≥ (res.filter (fun x => notTie t x)).length
+  | res, [], out, h => by simp [fillTie] at h; subst h; exact Nat.le_refl _
+  | [], _ :: _, out, h => by simp [fillTie] at h
+  | x :: xs, c :: cs, out, h => by
+      by_cases hx : notTie t x = true
+      · rw [fillTie_cons_other t x hx] at h
+        cases hf : fillTie t xs (c :: cs) with
+        | none => simp [hf] at h
+        | some o =>
+          simp [hf] at h; subst h
+          have := fillTie_keeps_others t xs (c :: cs) o hf
+          simp only [List.filter_cons, hx, if_true, List.length_cons]
+          omega
+      · have hxt : x = .tie t := by cases x <;> simp_all [notTie]
+        subst hxt
+        simp only [fillTie, if_true] at h
+        cases hf : fillTie t xs cs with
+        | none => simp [hf] at h
+        | some o =>
+          simp [hf] at h; subst h
+          have := fillTie_keeps_others t xs cs o hf
+          simp only [List.filter_cons, hx]
+          by_cases hc : notTie t c = true <;> simp [hc] <;> omega
+
+/-- … and never changes the number of places -/
+theorem fillTie_length (t : List Cand) : ∀ (res chosen out : List V), fillTie t res chosen = some out →
+    out.length = res.length
+  | res, [], out, h => by simp [fillTie] at h; subst h; rfl
+  | [], _ :: _, out, h => by simp [fillTie] at h
+  | x :: xs, c :: cs, out, h => by
+      by_cases hx : notTie t x = true
+      · rw [fillTie_cons_other t x hx] at h
+        cases hf : fillTie t xs (c :: cs) with
+        | none => simp [hf] at h
+        | some o => simp [hf] at h; subst h; simp [fillTie_length t xs (c :: cs) o hf]
+      · have hxt : x = .tie t := by cases x <;> simp_all [notTie]
+        subst hxt
+        simp only [fillTie, if_true] at h
+        cases hf : fillTie t xs cs with
+        | none => simp [hf] at h
+        | some o => simp [hf] at h; subst h; simp [fillTie_length t xs cs o hf]
+
 /-- the tiebreaker is asked about exactly the tied candidates: every key of the votes it sees is a member of
     the tie -/
 theorem tieChoice_among (votes : V) (tie : List Cand) (among : V) (h : subsetVotes votes (.tie tie) = .ok among) :
